@@ -170,12 +170,33 @@ struct TrustSim {
 		bw.pubfile_bytes = pubfile_of(F_HONEST);
 		bw.pub_http_code = 200;
 		CallEnv e; e.behav = op.arg(2) % 4 == 3 ? B_STATUS_ERR : B_HONEST; e.subseed = (uint64_t)op.arg(3);
+		if (op.arg(4) > 0 && plan.c("adv", 1)) { e.behav = (int)(op.arg(4) % B__COUNT); if (e.behav == B_CONF_ONLY || e.behav == B_TRUNCATED) e.behav = B_GARBAGE_PDU; nontrivial = true; }
 		bw.arm(e);
+		size_t served0 = bw.served.size();
 		KSI_Signature *ext = nullptr;
 		int res = KSI_extendSignature(ctx, s.sig, &ext);
 		bw.disarm();
 		K.ev("EXTENDPUB kind=%d behav=%s -> 0x%x", s.kind, behav_name(e.behav), res);
 		K.count(res == KSI_OK ? "outcome.extended_to_publication" : "outcome.extend_to_publication_refused");
+		// C08 through KSI_extendSignature: success only on an eligible reply for the signature's aggregation time and the nearest
+		// publication of the file; the result is consistent, for the same document and second, and carries that publication
+		if (res == KSI_OK && ext) {
+			uint64_t P = 0;
+			for (uint64_t cand : {Pold, P1, P2}) if (cand >= s.agg && (P == 0 || cand < P)) P = cand;
+			const ServedRequest *sr = nullptr;
+			for (size_t i = served0; i < bw.served.size(); i++) if (bw.served[i].is_ext) sr = &bw.served[i];
+			std::string eb = sdk::serialize(ext);
+			SigView v; SigFacts f; bool parsed = parse_signature(eb, v); if (parsed) f = evaluate(v);
+			if (!sr || sr->reply.empty()) K.fail("C08", "extended-without-reply", "extendSignature", "KSI_extendSignature succeeded although the extender sent no reply");
+			else if (!sr->reply_eligible) K.fail(sr->reply_info.authentic(bw.ext.mac_alg) ? "C08" : "C06", "extended-from-ineligible-reply", behav_name(sr->meta.behav), "KSI_extendSignature succeeded on a reply that is not an authentic status-0 response with the request's id (behaviour %s)", behav_name(sr->meta.behav));
+			else if (!sr->reply_info.has_cal || sr->reply_info.cal_agg != s.agg || sr->reply_info.cal_pub != P) K.fail("C08", "extended-with-wrong-times", behav_name(sr->meta.behav), "KSI_extendSignature succeeded on a calendar chain for other times (reply %llu..%llu, wanted %llu..%llu)", (unsigned long long)sr->reply_info.cal_agg, (unsigned long long)sr->reply_info.cal_pub, (unsigned long long)s.agg, (unsigned long long)P);
+			if (!(parsed && f.consistent)) K.fail("C08", "extended-signature-inconsistent", f.why, "the signature extended to the publications file is not internally consistent (%s)", f.why.c_str());
+			else {
+				if (f.input_hash != s.hash || f.agg_time != s.agg) K.fail("C08", "document-hash-changed", "extendSignature", "the extended signature is for another document hash or second");
+				if (!v.has_pub || v.pub_time != P || v.pub_hash != bw.world.cal.root(P)) K.fail("C08", "publication-record-changed", "extendSignature", "the extended signature does not carry the publication of the file it was extended to");
+				if (v.has_auth) K.fail("C08", "auth-record-kept", "extendSignature", "the extended signature still carries a calendar authentication record");
+			}
+		}
 		if (ext) { if (op.arg(1) % 2) KSI_Signature_free(ext); else kept.push_back(ext); }
 		// let the context reuse whatever it has recycled
 		for (int i = 0; i < 3; i++) { KSI_Signature *c = nullptr; if (KSI_Signature_clone(s.sig, &c) == KSI_OK) KSI_Signature_free(c); KSI_DataHash *h = sdk::hash_from_imprint(ctx, imprint(1, "churn " + std::to_string(i))); KSI_DataHash_free(h); }
@@ -353,7 +374,7 @@ struct TrustEngine : run::Engine {
 			B_BAD_MAC, B_OTHER_KEY, B_OTHER_ALG, B_OTHER_VER, B_NO_HEADER, B_NO_MAC, B_GARBAGE_PDU, B_WITH_CONF, B_STATUS_CONTENT, B_EXTRA_LINKS, B_NO_AGG_TIME, B_RESP_PLUS_ERROR, B_V1_REFLECT, B_PUB_SHIFTED_NO_AGG};
 		for (int i = 0; i < n; i++) {
 			if (g.chance(1, 6)) p.ops.push_back({"TICK", {g.pickl<int64_t>({1000, 600000, 3700000})}});
-			if (g.chance(1, 5)) p.ops.push_back({"EXTENDPUB", {(int64_t)g.below(S__COUNT), (int64_t)g.below(2), (int64_t)g.below(4), (int64_t)g.below(1 << 30)}});
+			if (g.chance(1, 5)) p.ops.push_back({"EXTENDPUB", {(int64_t)g.below(S__COUNT), (int64_t)g.below(2), (int64_t)g.below(4), (int64_t)g.below(1 << 30), g.chance(1, 2) ? 0 : ext_behavs[g.below(sizeof ext_behavs / sizeof ext_behavs[0])]}});
 			p.ops.push_back({"VERIFY", {(int64_t)g.below(S__COUNT), (int64_t)g.below(5), (int64_t)g.below(5), (int64_t)g.below(2), g.chance(2, 3) ? 1 : 0, g.chance(3, 4) ? ext_behavs[g.below(sizeof ext_behavs / sizeof ext_behavs[0])] : (int64_t)g.below(B__COUNT), (int64_t)g.below(1 << 30),
 				g.chance(3, 4) ? 0 : (int64_t)g.range(1, 3), (int64_t)g.below(900), g.chance(1, 2) ? 0 : (int64_t)g.below(F__COUNT)}});
 		}
